@@ -252,7 +252,13 @@ def r18_3(ctx: Ctx):
         typestate(cfg, ["U"], node_fn, edge_fn)
         want = {False: True, True: False}.get(val)  # store False (awake) needs member True
         if val not in (True, False):
-            obs.append(ctx.ob("R18.3", f, st, status=INCONCLUSIVE, detail="flag stored from a non-constant"))
+            verdict = _nonconst_store_verdict(st.value, defs, recv, seeds_name, facts)
+            if verdict == "ok":
+                obs.append(ctx.ob("R18.3", f, st, detail=f"`{norm(st)}`: the flag is the negation of membership in this round's seeds"))
+            elif verdict == "swapped":
+                obs.append(ctx.ob("R18.3", f, st, status=VIOLATION, detail=f"`{norm(st)}` sets the flag exactly when the deme IS a key of `{seeds_name}`: demes that sprouted fall asleep and idle ones stay awake"))
+            else:
+                obs.append(ctx.ob("R18.3", f, st, status=INCONCLUSIVE, detail="flag stored from a non-constant the analyser cannot relate to membership in the seeds"))
         elif facts == {want}:
             obs.append(ctx.ob("R18.3", f, st, detail=f"`_hibernating = {val}` exactly when the deme is {'not ' if val else ''}among this round's seeds"))
         else:
@@ -272,9 +278,67 @@ def r18_3(ctx: Ctx):
         obs.append(ctx.ob("R18.3", f, loop, status=OK if ok else VIOLATION, detail="flags recomputed over the active non-leaf demes" if ok else f"the flag loop ranges over `{', '.join(norm(s) for s in srcs)}`, not over the active non-leaf demes", construct="range:" + norm(loop.iter)))
     anl = ctx.prog.own_method("DemeTree", "active_non_leaves")
     txt = norm(anl.node)
-    ok = "is_active" in txt and ("height - 1" in txt or "levels[:-1]" in txt)
-    obs.append(ctx.ob("R18.3", anl, anl.node, status=OK if ok else VIOLATION, detail="active_non_leaves = active demes of all levels but the last" if ok else "active_non_leaves no longer selects the active demes of the non-leaf levels", construct="active_non_leaves"))
+    tn = txt.replace(" ", "")
+    asn = anl.self_name()
+    has_filter = "is_active" in tn
+    good_range = any(k in tn for k in ("height-1", "levels[:-1]", f"len({asn}.levels)-1", f"len({asn}._levels)-1"))
+    bad_range = any(k in tn for k in (f"range({asn}.height)", f"range(len({asn}.levels))", f"range(len({asn}._levels))", f"in{asn}.levels)", f"in{asn}._levels)", f"enumerate({asn}.levels)", f"enumerate({asn}._levels)", f"{asn}.all_demes", f"{asn}.active_demes"))
+    if has_filter and good_range and not bad_range:
+        st_anl = OK
+    elif ("active" not in tn.split(":", 1)[-1].replace("active_non_leaves", "")) or (bad_range and not good_range):
+        st_anl = VIOLATION
+    else:
+        st_anl = INCONCLUSIVE
+    obs.append(ctx.ob("R18.3", anl, anl.node, status=st_anl, detail="active_non_leaves = active demes of all levels but the last" if st_anl == OK else "active_non_leaves no longer selects the active demes of the non-leaf levels" if st_anl == VIOLATION else "cannot tell which demes active_non_leaves selects", construct="active_non_leaves"))
     return obs
+
+
+def _nonconst_store_verdict(value, defs, recv, seeds_name, facts) -> str:
+    """`deme._hibernating = <expr>`: 'ok' if on every path fact the expression equals `deme not in seeds`,
+    'swapped' if it equals `deme in seeds`, else 'unknown'."""
+    import copy
+
+    from ..core import _Subst, bool_equiv, parse_cond
+
+    e = _Subst({k: v for k, v in defs.items() if k != seeds_name}, 4).visit(copy.deepcopy(value))
+    r = norm(recv)
+
+    class K(ast.NodeTransformer):
+        def visit_Call(self, node):
+            self.generic_visit(node)
+            if isinstance(node.func, ast.Attribute) and node.func.attr == "keys" and not node.args and norm(node.func.value) == seeds_name:
+                return node.func.value
+            if isinstance(node.func, ast.Name) and node.func.id in ("list", "set", "tuple", "frozenset") and len(node.args) == 1 and norm(node.args[0]) == seeds_name:
+                return node.args[0]
+            return node
+
+    e = K().visit(e)
+    results = set()
+    for fact in facts:
+        if fact in (True, False):
+            class F(ast.NodeTransformer):
+                def visit_Compare(self, node):
+                    if len(node.ops) == 1 and isinstance(node.ops[0], (ast.In, ast.NotIn)) and norm(node.left) == r and norm(node.comparators[0]) == seeds_name:
+                        return ast.Constant(value=fact if isinstance(node.ops[0], ast.In) else (not fact))
+                    return node
+
+            e2 = F().visit(copy.deepcopy(e))
+            good, bad = ast.Constant(value=not fact), ast.Constant(value=fact)
+        else:
+            e2 = e
+            good, bad = parse_cond(f"{r} not in {seeds_name}"), parse_cond(f"{r} in {seeds_name}")
+        if bool_equiv(e2, good) is True:
+            results.add("ok")
+        elif bool_equiv(e2, bad) is True:
+            results.add("swapped")
+        else:
+            results.add("unknown")
+    if results == {"ok"}:
+        return "ok"
+    if "swapped" in results and "unknown" not in results:
+        return "swapped"
+    return "unknown"
+
 
 
 def _core_iter(e):
@@ -379,8 +443,8 @@ def r18_6(ctx: Ctx):
 
 RULES = [
     ("R18.1", r18_1, 1),
-    ("R18.2", r18_2, 3),
-    ("R18.3", r18_3, 5),
+    ("R18.2", r18_2, 2),
+    ("R18.3", r18_3, 4),
     ("R18.4", r18_4, 1),
     ("R18.5", r18_5, 10),
     ("R18.6", r18_6, 2),
